@@ -24,7 +24,11 @@ ParameterEvent::ParameterEvent(Parameter* parameter) : parameter_(parameter) {}
 Parameter::Parameter(const std::string& name, double value, std::shared_ptr<ConstraintInterface> constraint, double precision) :
   name_(name), value_(0), precision_(0), constraint_(constraint), listeners_()
 {
-  setValue(value);
+  // The initial value must be checked explicitly: setValue() skips the
+  // constraint test when the new value equals the current one (0 here).
+  if (constraint_ && !constraint_->isCorrect(value))
+    throw ConstraintException("Parameter::Parameter", this, value);
+  value_ = value;
   setPrecision(precision);
 }
 
